@@ -125,6 +125,36 @@ def run(ck, an, tier):
         ck.check(not early, "GUARD", "S1.no-skip-before-the-loop", subj, fa.loc(loop), "make_trades reaches the per-item decision for every rebalance (no shortcut return decides for all items at once, "
                  "other than for an empty imbalance)", "make_trades can return without entering the trade loop: " + "; ".join(early[:3]) +
                  " - held-but-untargeted contracts and above-threshold items are then not traded", construct="trade loop of make_trades", witness=early[:8])
+    # every item gets its own decision: an item may be skipped (`continue`) or fail loudly (`raise`), but nothing inside one iteration may
+    # end the loop for the items that follow it - a `break` of the trade loop or a `return` in its body drops every later imbalance item,
+    # among them the held-but-untargeted contracts (the imbalance lists targets first), whatever their size
+    def _ends_loop(body):
+        out = []
+        for st_ in body:
+            for x in _walk_same_loop(st_):
+                if isinstance(x, (ast.Break, ast.Return)):
+                    out.append(x)
+        return out
+
+    def _walk_same_loop(n_):
+        """nodes below n_ that belong to the trade loop itself: nested loops keep their own `break`s (but not their `return`s), nested
+        functions / lambdas keep both"""
+        stack = [(n_, False)]
+        while stack:
+            x, nested = stack.pop()
+            if isinstance(x, (ast.FunctionDef, ast.AsyncFunctionDef, ast.Lambda, ast.ClassDef)):
+                continue
+            if not (nested and isinstance(x, ast.Break)):
+                yield x
+            inner = nested or isinstance(x, (ast.For, ast.While, ast.AsyncFor))
+            for c_ in ast.iter_child_nodes(x):
+                # the `else:` of a nested loop is outside that loop as far as `break` goes
+                in_else = isinstance(x, (ast.For, ast.While, ast.AsyncFor)) and c_ in getattr(x, "orelse", [])
+                stack.append((c_, nested if in_else else inner))
+    exits = _ends_loop(loop.body)
+    ck.check(not exits, "GUARD", "S1.no-loop-exit", subj, fa.loc(exits[0]) if exits else fa.loc(loop), "one imbalance item never decides for the items after it: the trade loop has no `break` and no `return` in its body "
+             "(an item is skipped with `continue` or rejected with `raise`)", "the trade loop can end early: " + "; ".join(f"line {x.lineno}: `{stmt_text(x)[:40]}`" for x in exits[:3]) +
+             " - every later imbalance item, held-but-untargeted contracts included, is then not traded", construct="trade loop of make_trades", witness=[f"line {x.lineno}: {stmt_text(x)[:60]}" for x in exits[:8]])
     # Trade args
     kw = {k.arg: k.value for k in t.keywords}
     ck.check("contract" in kw and fa.sym.canon(kw["contract"]) == Cn.key(), "ARGFLOW", "S1.trade-contract", subj, fa.loc(t), "the trade is for the loop's contract",
